@@ -42,6 +42,12 @@ def slot_values(ob, rng, n_random):
         for f in forms.special_values("float"):
             vals.add(f32_bits(f))
         vals |= {f32_bits(x) for x in (0.0, 0.1, 1.0 / 3, 32.0, 64.0, 0.0625, 0.125, 31.0, 1.9375, 1.96875, -0.124, 1e10)}
+        # values that are not ordered numbers, and every single-bit neighbour of some representable values (a check written with float
+        # comparisons instead of bit tests differs exactly there)
+        vals |= {0x7FC00000, 0xFFC00000, 0x7F880000, 0x7FF80000, 0x7F800000, 0xFF800000, 0x7F800001, 0x7FA00000, 0x00000001, 0x80000000, 0x00800000, 0x3E000000 - 1, 0x41F80000 + 1}
+        for f in list(forms.special_values("float"))[:: 1 if n_random > 8 else 3]:
+            for k in range(32):
+                vals.add(f32_bits(f) ^ (1 << k))
         for _ in range(n_random):
             vals.add(rng.next() & 0xFFF80000)
             vals.add(rng.next() & 0xFFFFFFFF)
@@ -114,12 +120,14 @@ def lit_text(ob, v):
     return repr(bits_f32(v)) if ob["ty"] == "f32" else str(v)
 
 
-def sweep(run, gen, focus, thorough):
-    """focus: 'C03' or 'C04'. Returns stats. Reports violations through run.violation."""
+def sweep(run, gen, focus, thorough, crate=None):
+    """focus: 'C03', 'C04' or 'both' (which comparisons are violations). crate: name of the generated macro crate. Returns stats. Reports violations through run.violation."""
+    crate = crate or focus
     rng = SplitMix(run.seed)
     fs = gen["forms"]
-    obs = [o for o in gen["obligations"] if "skip" not in o]
-    stats = {"obligations": len(gen["obligations"]), "translated": len(obs), "skipped": {o["line"] if "line" in o else o["mnemonic"]: o["skip"] for o in gen["obligations"] if "skip" in o},
+    # obligations that could not be TRANSLATED are still swept by execution (c03 reports that the theorem is missing)
+    obs = [o for o in gen["obligations"] if "skip" not in o or o.get("exec_only")]
+    stats = {"obligations": len(gen["obligations"]), "translated": len([o for o in obs if not o.get("exec_only")]), "skipped": {o["line"] if "line" in o else o["mnemonic"]: o["skip"] for o in gen["obligations"] if "skip" in o},
              "literal": 0, "runtime": 0, "literal_accepted": 0, "runtime_accepted": 0, "pairs_compared": 0, "accepted_outside_documented": 0}
     plan = []          # (ob, prev value or None, v)
     for ob in obs:
@@ -195,7 +203,7 @@ def sweep(run, gen, focus, thorough):
         cases.append(dict(body="; .arch aarch64 ; " + ob["line"], vars=vs))
     import exprhyg
     all_cases, twin_ix = exprhyg.extend(cases)
-    ok, log = dyn.build(focus, all_cases)
+    ok, log = dyn.build(crate, all_cases)
     if not ok:
         run.violation("broken-correspondence", {"kind": "harness-build", "harness": "dyn"}, "the generated crate using the real dynasm! macro does not build against the working tree",
                       {"log": log[-3000:]}, found_input=False)
@@ -207,8 +215,8 @@ def sweep(run, gen, focus, thorough):
             continue
         dreqs.append((case_of[ob["n"]], ([a] if a is not None else []) + [v]))
         dplan.append((ob, a, v))
-    dres = dyn.run(focus, dreqs)
-    stats["expression_twins"] = exprhyg.compare(run, focus, focus, all_cases, twin_ix, dreqs, dres)
+    dres = dyn.run(crate, dreqs)
+    stats["expression_twins"] = exprhyg.compare(run, crate, "C03" if focus == "both" else focus, all_cases, twin_ix, dreqs, dres)
     accepted = {}
     for (ob, a, v), (idx, vals), (st, b) in zip(dplan, dreqs, dres):
         stats["runtime"] += 1
@@ -222,9 +230,11 @@ def sweep(run, gen, focus, thorough):
         env = {"v": v & ((1 << TYW[ob["ty"]][0]) - 1)}
         if a is not None:
             env["a"] = a
-        p, val, _ = ob["ir"][True]
         ext = EXT_PY
         try:
+            if not ob.get("ir"):
+                raise KeyError("no translation")
+            p, val, _ = ob["ir"][True]
             ir_panic = rustexpr.ev(p, env, ext)
             ir_w = None if ir_panic else rustexpr.ev(val, env, ext)
         except KeyError:
@@ -238,7 +248,7 @@ def sweep(run, gen, focus, thorough):
         if key in lit:
             stats["pairs_compared"] += 1
             lw = lit[key]
-            if lw != rw and focus == "C03":
+            if lw != rw and focus in ("C03", "both"):
                 if lw is None:
                     what = f"{desc} assembles to {hex(rw)} although the literal spelling is rejected at compile time"
                     kind = "runtime-accepts-rejected-literal"
@@ -251,7 +261,7 @@ def sweep(run, gen, focus, thorough):
                 run.violation("failing-input", {"kind": kind, "mnemonic": ob["mnemonic"], "commands": ob["lean_cmds"]}, what,
                               dict(payload, literal_line=fs[ob["form"]].render(dict(ob["vals"]), runtime={ob["idx"]: lit_text(ob, v), **({ob["idx"] - 1: str(a)} if a is not None else {})}), impl=b.hex() if st == "ok" else b))
     # ---------------- C04 on the implementation: documented values accepted, accepted values encoded injectively, both spellings
-    if focus == "C04":
+    if focus in ("C04", "both"):
         for (ob, a, v) in plan:
             d = in_doc(ob["constraint"], v, a)
             key = (ob["n"], a, v)
